@@ -227,3 +227,30 @@ def _f11a(pid, cfg, tr, v):
             if any(x[0] == 'Route' and x[8] == 1 and x[2] == e[2] and x[4] == e[1] for x in cev):
                 return True
     return False
+
+
+@trigger('F-12d')
+def _f12d(pid, cfg, tr, v):
+    """a customer attached to a server that its node has retired, at a node with pre-emptive priorities and a non-pre-emptive Schedule"""
+    if v[0] != 'R':
+        return False
+    vf = frame_verdict(pid, tr, v)
+    k = vf[1]
+    if k < 1 or k > len(tr.frames):
+        return False
+    pre = cfg.get('preempt') or []
+    for snap in (tr.frames[k - 1]['snap'], tr.frames[max(k - 2, 0)]['snap']):
+        for n in snap['nodes']:
+            j = n['id'] - 1
+            sv = cfg['servers'][j]
+            if not (isinstance(sv, dict) and sv['kind'] == 'sched' and not sv.get('pre')):
+                continue
+            if not (j < len(pre) and pre[j]):
+                continue
+            ids = set(x['id'] for x in (n['servers'] or []))
+            for q in n['queues']:
+                for i in q:
+                    d = snap['inds'][i]
+                    if isinstance(d['server'], int) and d['server'] >= 1 and d['server'] not in ids and not d['interrupted']:
+                        return True
+    return False
